@@ -15,6 +15,7 @@ import (
 	"fmt"
 	"io"
 	"net"
+	"os"
 	"strconv"
 	"strings"
 	"time"
@@ -549,6 +550,9 @@ func exec(op string) (res string) {
 		return "roundtrip"
 	case "nego":
 		return nego(w[1], w[2])
+	case "rx", "negoh", "negos":
+		// a crash on the reader goroutine of a connection kills the process: run in the worker child
+		return childExec(op)
 	case "held":
 		return execHeld(w[1], w[2:])
 	case "flight":
@@ -896,7 +900,12 @@ func reqOp(word, kind, comp string, ver byte, extra, stream int, stmt []byte, bl
 }
 
 func main() {
+	if len(os.Args) >= 2 && os.Args[1] == "worker" {
+		workerMain()
+		return
+	}
 	mode, tier, path := vh.Args()
+	defer stopWorker()
 	if mode == "replay" {
 		for _, l := range vh.ReadLines(path) {
 			fmt.Println(exec(l))
@@ -910,6 +919,17 @@ func main() {
 		mult = 12
 	}
 	streams := []int{0, 1, 2, 127, 128, 255, 256, 32767, -1}
+
+	// 000. compressed frames on every receive path of a real connection; negotiation over histories of
+	//      connections to one host (rx.go; run in a worker child process)
+	for i := 0; i < 260*mult; i++ {
+		op, cls := genRx(r)
+		out.Case(op, exec(op), cls, true)
+	}
+	for i := 0; i < 140*mult; i++ {
+		op, cls := genNegoh(r)
+		out.Case(op, exec(op), cls, true)
+	}
 
 	// 00. ownership of the buffers that cross the compressor boundary: held results (codec level, framer
 	//     level) and responses in flight on real connections (see held.go)
